@@ -335,6 +335,7 @@ package updown
 //@   after assign:cWriteDone#1: assume [env.errors] forallint(k, envat(cErr, k) != nil)
 //@   ghost gErrSeen bool = false
 //@   before call:getLines#1: assert [c10.worker] sameslice(arg(0), refSeq) && arg(1) == cFR && arg(2) == cudLs && arg(3) == cErr
+//@   before call:ReadEncodeAlignmentToList#1: assert [c10.reference.soft] arg(0) == reference && arg(1) == false
 //@   before call:writeOutput#1: assert [c10.writer] arg(0) == out && arg(1) == cudLs && arg(2) == cErr && arg(3) == cWriteDone
 //@   before call:ReadEncodeAlignment#1: assert [c10.reader] arg(0) == alignment && arg(1) == false && arg(2) == cFR && arg(3) == cErr && arg(4) == cFRDone
 //@   loop 1:
@@ -366,6 +367,7 @@ package updown
 //@   modifies everything
 //@   after if#1: assert [c18.args] err == nil
 //@   after if#4: assert [c18.oneref] len(temp) == 1
+//@   before call:ReadEncodeAlignmentToList#1: assert [c09.reference.soft] arg(0) == reference && arg(1) == false
 //@   after assign:cSplitDone#1: assume [env.results] forall(k, 0, nQ, 0 <= resultOfTR(k) && resultOfTR(k) < nQ && envat(cResults, resultOfTR(k)).qidx == k) && forall(j, 0, nQ, 0 <= envat(cResults, j).qidx && envat(cResults, j).qidx < nQ && resultOfTR(envat(cResults, j).qidx) == j)
 //@   after assign:cSplitDone#1: assume [env.errors] forallint(k, envat(cErr, k) != nil)
 //@   before call:splitInput#1: assert [c08.options] sameslice(arg(0), queries) && sameslice(arg(1), ignoreArray) && arg(2) == sizeArray && arg(3) == nofill && arg(4) == distArray && (arg(5) == threshpair || (isnan(arg(5)) && isnan(threshpair))) && arg(6) == threshtarg && arg(7) == distpush && arg(8) == cudL && arg(9) == cResults
